@@ -38,11 +38,20 @@ def getdt : P String := do
   let n := p.length
   pure (fout (getDT n d c r (fn g.toArray) (fn p.toArray) (fn b.toArray)))
 
+/-- pbm.dissidx psd(n) size(n) maxDiss minIndex → index -/
+def dissidx : P String := do
+  let p ← flts; let sz ← flts; let md ← flt; let mi ← nat
+  let n := p.length
+  let pa := p.toArray; let sa := sz.toArray
+  let vol : Nat → Float := fun i => fn pa i * (fn sa i * fn sa i * fn sa i)
+  pure (toString (dissolutionIndex n md vol mi))
+
 def handle (verb : String) : Option (P String) :=
   match verb with
   | "pbm.dxdt" => some dxdt
   | "pbm.correct" => some correct
   | "pbm.getdt" => some getdt
+  | "pbm.dissidx" => some dissidx
   | _ => none
 
 end KawinV.Drv.C07
